@@ -48,6 +48,10 @@ type c15Keys struct {
 	pubs    [2]ed25519.PublicKey
 	hashes  [2]uint32
 	list    string // path of the log list file
+	// note signers with foreign keys named like the witness, the mirror and a
+	// stranger: extra signature lines on submitted checkpoints that must never
+	// survive into a mirror checkpoint.
+	extra [3]note.Signer
 }
 
 type c15DetRand struct {
@@ -103,6 +107,17 @@ func c15NewKeys(t *testing.T) *c15Keys {
 		k.pubs[i] = ed25519.PublicKey(raw[1:])
 		k.hashes[i] = vfref.NoteKeyHash(o, raw)
 		list += "vkey " + vkey + "\norigin " + o + "\n"
+	}
+	for i, name := range []string{"example.com/c15-witness", "example.com/c15-mirror", "example.com/c15-stranger"} {
+		rnd := &c15DetRand{}
+		copy(rnd.state[:], c15Seed("extra-"+name))
+		skey, _, err := note.GenerateKey(rnd, name)
+		if err != nil {
+			t.Fatalf("VERIF-INCONCLUSIVE: note.GenerateKey: %v", err)
+		}
+		if k.extra[i], err = note.NewSigner(skey); err != nil {
+			t.Fatalf("VERIF-INCONCLUSIVE: note.NewSigner: %v", err)
+		}
 	}
 	k.list = filepath.Join(t.TempDir(), "c15-loglist")
 	if err := os.WriteFile(k.list, []byte(list), 0o644); err != nil {
@@ -254,7 +269,7 @@ func c15NewSim(rt *rapid.T, keys *c15Keys, rec *vfstat.Recorder) *c15Sim {
 		mirrorName: "example.com/c15-mirror", witnessName: "example.com/c15-witness",
 	}
 	w.enforceImmutable = rapid.Bool().Draw(rt, "immutableStore")
-	s.faultsOn = c15Uniform(rt, "faultsOn", 10) < 6
+	s.faultsOn = c15Uniform(rt, "faultsOn", 10) < 7
 	s.world = w
 	seed := rapid.Uint64().Draw(rt, "entrySeed")
 	forkAt := int64(rapid.IntRange(0, 400).Draw(rt, "forkAt"))
@@ -361,7 +376,12 @@ func (s *c15Sim) addCheckpoint(l *c15Log, delta int64, fault *c15Fault) {
 		newSize = max(pend, s.capSize)
 	}
 	l.growTo(newSize, s.small)
-	body := l.addCheckpointBody(pend, newSize)
+	var extra note.Signer
+	if x := c15Uniform(s.rt, "extraSig", 8); x >= 5 {
+		extra = s.keys.extra[x-5]
+		s.class("add-checkpoint-with-foreign-signature-line")
+	}
+	body := l.addCheckpointBody(pend, newSize, extra)
 	if s.depth == 0 {
 		s.world.arm(fault)
 	}
@@ -788,7 +808,7 @@ func (s *c15Sim) genDelta() int64 {
 
 func (s *c15Sim) genFault(maxNth int) *c15Fault {
 	rt := s.rt
-	if !s.faultsOn || s.depth > 0 || c15Uniform(rt, "faultDice", 100) >= 22 {
+	if !s.faultsOn || s.depth > 0 || c15Uniform(rt, "faultDice", 100) >= 30 {
 		return nil
 	}
 	f := &c15Fault{}
@@ -959,6 +979,18 @@ func (s *c15Sim) genUpload(l *c15Log, force string) *c15Req {
 		r.start = int64(rapid.IntRange(0, int(r.end)).Draw(rt, "startRand"))
 	}
 
+	if base >= 8*256 {
+		switch r.start {
+		case base - 8*256:
+			s.class("start-at-window-edge-inside")
+		case base - 8*256 - 1:
+			s.class("start-at-window-edge-outside")
+		}
+	}
+	if r.start%256 != 0 && r.start < r.end {
+		s.class("start-midtile")
+	}
+
 	// --- body
 	pk := c15PkgRanges(r.start, r.end)
 	if len(pk) > 300 {
@@ -973,8 +1005,12 @@ func (s *c15Sim) genUpload(l *c15Log, force string) *c15Req {
 	r.bodyOK = true
 	r.bodyKind = "complete"
 	if len(pk) > 0 {
-		r.bodyKind = c15Pick(rt, "bodyKind", c15W{"complete", 46}, c15W{"cutpkg", 16}, c15W{"cutmid", 12}, c15W{"wrongentry", 7},
-			c15W{"fork", 6}, c15W{"wrongproof", 8}, c15W{"trailing", 3}, c15W{"empty", 2})
+		bopts := []c15W{{"complete", 46}, {"cutpkg", 16}, {"cutmid", 12}, {"wrongentry", 7},
+			{"fork", 6}, {"wrongproof", 8}, {"trailing", 3}, {"empty", 2}}
+		if r.tk != nil && r.tk.log != l.idx {
+			bopts = append(bopts, c15W{"otherlog", 50})
+		}
+		r.bodyKind = c15Pick(rt, "bodyKind", bopts...)
 	}
 	j := 0
 	if len(pk) > 1 {
@@ -1082,6 +1118,14 @@ func (s *c15Sim) genUpload(l *c15Log, force string) *c15Req {
 		r.bodyOK = bytes.Equal(np, pkgs[j])
 		pkgs[j] = np
 		r.bodyKind = fmt.Sprintf("wrongproof-%s%d/%d", how, j, len(pk))
+	case "otherlog":
+		// the entries and proofs of the log the (foreign) ticket belongs to
+		o := s.logs[r.tk.log]
+		o.growTo(r.end, s.small)
+		for i := range pk {
+			pkgs[i] = o.pkgBytes(pk[i][0], pk[i][1], pk[i][2], r.end)
+		}
+		r.bodyOK = false
 	case "trailing":
 		pkgs = append(pkgs, rapid.SliceOfN(rapid.Byte(), 1, 40).Draw(rt, "trailing"))
 		r.bodyOK = false
